@@ -213,7 +213,7 @@ class Disassembler:
             instructions.append(instruction)
             if self.rst_handler:
                 rst_args = self.rst_handler.handle(self.snapshot, address)
-                if rst_args:
+                if rst_args and address + length < 65536:
                     subctl, sublengths = rst_args
                     ra_addr = address + length
                     ra_len = sum(s[0] for s in sublengths)
